@@ -39,6 +39,7 @@ type Engine struct {
 	implTagCache map[string][]int
 	fnValues     map[*ssa.Function]bool
 	boxedTypes   map[string]bool
+	valueUse     map[*ssa.Function]bool
 	pendingCalls func(*ssa.Function)
 
 	repoDir string
